@@ -136,7 +136,7 @@ const tAlphabet = "GETYPath0123456789:{}[]\"@/# \n\t.,-_|eE*"
 
 // shortAlphabet: very short trailing texts (1-3 bytes) exercise the byte right AFTER the first foreign byte
 // (line break, annotation / comment start, bracket) — the place where a delayed end-of-value decision lives.
-const shortAlphabet = "a9:{}\"\n\r/# ,@|]*"
+const shortAlphabet = "ax9:{}\"\n\r/# ,@|]*"
 
 func genT(r *rand.Rand) string {
 	if r.Intn(3) == 0 {
@@ -169,33 +169,122 @@ func pickTail(r *rand.Rand, kind, end string) (sep, t string) {
 		} else {
 			t = genT(r)
 		}
-		if end == "inline-annotation" && t != "" && !strings.ContainsAny(sep, "\r\n") {
-			continue
+		if (end == "quote" || end == "shortcut" || end == "number" || end == "word") && r.Intn(2) == 0 {
+			// the endings whose end-of-value decision waits for the next byte: more very short tails
+			t = t[:0] + string(shortAlphabet[r.Intn(len(shortAlphabet))])
+			for r.Intn(2) == 0 && len(t) < 3 {
+				t += string(shortAlphabet[r.Intn(len(shortAlphabet))])
+			}
 		}
-		if t == "" {
+		if tailOK(kind, end, sep, t) {
 			return
 		}
-		c := t[0]
-		if isBlank(c) {
-			continue
+	}
+}
+
+// tailOK: the side condition "T (after sep) cannot continue a text of this kind that ends as `end`".
+func tailOK(kind, end, sep, t string) bool {
+	if t == "" {
+		return true
+	}
+	if end == "inline-annotation" && !strings.ContainsAny(sep, "\r\n") {
+		return false
+	}
+	c := t[0]
+	if isBlank(c) {
+		return false
+	}
+	switch kind {
+	case "schema", "enum":
+		if c == '/' || c == '#' {
+			return false
 		}
-		switch kind {
-		case "schema", "enum":
-			if c == '/' || c == '#' {
+		if end == "shortcut" && c == '|' {
+			return false
+		}
+		if sep == "" && end != "bracket" && end != "quote" {
+			return false
+		}
+	case "json":
+		if sep == "" && end == "number" && strings.IndexByte("0123456789.eE", c) >= 0 {
+			return false
+		}
+	}
+	return true
+}
+
+// smallTexts: short accepted texts of every ending kind, for the bounded-exhaustive short-tail pass.
+var smallTexts = map[string][][2]string{
+	"schema": {{`"abc"`, "quote"}, {`""`, "quote"}, {`"a\"b"`, "quote"}, {"1", "number"}, {"-2.5", "number"}, {"0", "number"}, {"true", "word"},
+		{"false", "word"}, {"null", "word"}, {"@t", "shortcut"}, {"@t | @u", "shortcut"}, {"@t|@u", "shortcut"}, {"{}", "bracket"}, {"[]", "bracket"},
+		{"[1, 2]", "bracket"}, {"{\n  \"a\": @t\n}", "bracket"}, {`"abc" // {minLength: 1}`, "inline-annotation"}, {"1 // note", "inline-annotation"},
+		{"@t // {nullable: true}", "inline-annotation"}, {"1 /* {min: 0} */", "multiline-annotation"}, {"@t /* note */", "multiline-annotation"},
+		{"# c\n\"abc\"", "quote"}, {"\n@u", "shortcut"}},
+	"json": {{"{}", "bracket"}, {"[1]", "bracket"}, {`"ab"`, "quote"}, {`""`, "quote"}, {"1", "number"}, {"-2.5e3", "number"}, {"0", "number"}, {"1.50", "number"},
+		{"true", "word"}, {"false", "word"}, {"null", "word"}, {`{"a": [1, "x"]}`, "bracket"}, {" 7", "number"}},
+	"enum": {{"[]", "bracket"}, {`[1, "a"]`, "bracket"}, {"[\n  1, // one\n  2\n]", "bracket"}, {"[1] /* c */", "multiline-annotation"}, {"[1] // c", "inline-annotation"}},
+}
+
+var smallTypes = c13.SchemaText{Types: map[string]string{"t": "1", "u": `"x"`}}
+
+// shortTails: every accepted small text x every separator x EVERY trailing text of length 1 and 2 over
+// shortAlphabet (length 3: sampled in the quick tier, exhaustive in the thorough tier) that satisfies the side
+// condition; the trailing text ends the input. This is where a one-byte correction of a delayed end-of-value
+// decision is visible: `"abc"}` , `"abc",` , `@t x` with nothing after the single foreign byte.
+func (x *runner) shortTails(r *rand.Rand) {
+	rep := x.rep
+	distinctSeps := []string{}
+	seen := map[string]bool{}
+	for _, sp := range seps {
+		if !seen[sp] {
+			seen[sp] = true
+			distinctSeps = append(distinctSeps, sp)
+		}
+	}
+	for _, kind := range []string{"schema", "json", "enum"} {
+		for _, se := range smallTexts[kind] {
+			s, end := se[0], se[1]
+			accepted := false
+			switch kind {
+			case "schema":
+				accepted = strings.HasPrefix(schemaCheckAST(smallTypes, s), "OK ")
+			case "json":
+				_, e := jsonEvents(s, false)
+				accepted = e == ""
+			case "enum":
+				accepted = strings.HasPrefix(enumValues(s), "VALUES")
+			}
+			if !accepted {
+				rep.Stat("short_" + kind + "_small_text_not_accepted")
 				continue
 			}
-			if end == "shortcut" && c == '|' {
-				continue
+			try := func(sep, t string) {
+				if !tailOK(kind, end, sep, t) {
+					return
+				}
+				rep.Stat(fmt.Sprintf("short_%s_T_len_%d", kind, len(t)))
+				x.triple("C14-"+kind, kind, s, end, sep, t, "")
 			}
-			if sep == "" && end != "bracket" && end != "quote" {
-				continue
-			}
-		case "json":
-			if sep == "" && end == "number" && strings.IndexByte("0123456789.eE", c) >= 0 {
-				continue
+			for _, sep := range distinctSeps {
+				for i := 0; i < len(shortAlphabet); i++ {
+					try(sep, shortAlphabet[i:i+1])
+					for j := 0; j < len(shortAlphabet); j++ {
+						t2 := string([]byte{shortAlphabet[i], shortAlphabet[j]})
+						try(sep, t2)
+						if vh.Tier() == "thorough" {
+							for k := 0; k < len(shortAlphabet); k++ {
+								try(sep, t2+shortAlphabet[k:k+1])
+							}
+						}
+					}
+				}
+				if vh.Tier() != "thorough" {
+					for n := 0; n < 40; n++ {
+						try(sep, string([]byte{shortAlphabet[r.Intn(len(shortAlphabet))], shortAlphabet[r.Intn(len(shortAlphabet))], shortAlphabet[r.Intn(len(shortAlphabet))]}))
+					}
+				}
 			}
 		}
-		return
 	}
 }
 
@@ -628,6 +717,8 @@ func Run(args []string) {
 			}
 		}
 	}
+
+	x.shortTails(r)
 
 	// ---- JSON documents
 	for i := 0; i < nJSON; i++ {
